@@ -45,25 +45,29 @@ MANIFEST = dict(
          "metadata reader/writer; specification qua_denote/chart_denote/wf_qua_doc written from the format rules (DESIGN B.2). "
          "Proved for all inputs: soundness of the read/write/round-trip oracles, written times within 1 ms and stable from the "
          "second generation on, Tags split/join laws, the hit writer on lists with the declared columns, timing-point and "
-         "scroll-velocity reading per record; _refuted witnesses for seven defect classes of the pinned tree. The whole-document "
+         "scroll-velocity reading per record, and the repaired note reader = qua_denote for all values on the record shapes "
+         "with omitted StartTime / KeySounds / Lane; _refuted theorems about the OLD reader model. The whole-document "
          "read/write theorems are partial: on every run the model is compared in Coq with the implementation on generated "
          "documents and in-memory charts (native and produced by the four converters), two generations deep, and the proven-sound "
          "oracle is evaluated on the implementation's outputs.",
     note="Trusted: Coq kernel+VM, harness generator/serialiser, PyYAML as a tested oracle, live tables translator. "
-         "Known findings (omitted KeySounds -> .nan, omitted StartTime on holds, omitted Lane everywhere, "
-         "InitialScrollVelocity '', and - before the fix: commits - index key / KeySounds .nan from converters) are "
-         "reported as KNOWN-FINDING; any other violation raises.",
+         "Only InitialScrollVelocity '' is a KNOWN-FINDING; the six repaired classes (4a9b03a, 3b9da0f, 736886e) are 'fixed' "
+         "and a recurrence raises a VIOLATION labelled regression:<key>.",
     technique="Coq proof over executable model + vm_compute correspondence and oracle on implementation output",
     design="4/C06, B.2")
 
+# defect classes that are still present in /repo (status "known" in findings/C06.json)
 KNOWN_ORDER = [
+    "qua-meta-isv-default-str",
+]
+# defect classes repaired in /repo (status "fixed"): still recognised and named by `reasons`, but a recurrence is a VIOLATION
+FIXED_KEYS = [
     "qua-read-holds-all-omit-starttime-keyerror",
     "qua-read-all-omit-lane-attributeerror",
     "qua-read-hold-omitted-starttime-length0",
     "qua-read-omitted-keysounds-nan",
     "qua-write-index-key",
     "qua-write-keysounds-nan",
-    "qua-meta-isv-default-str",
 ]
 
 # ------------------------------------------------------------------ tree <-> JSON
@@ -1037,6 +1041,8 @@ def py_oracle(case, out):
 
 
 def classify(case, out, kind):
+    """the known key only when EVERY violation of the case is a still-open known finding; otherwise the name of the
+    first violation that is not (a repaired class that came back, or an unclassified one) - never in the known list"""
     if kind != "spec":
         return None
     try:
@@ -1045,8 +1051,12 @@ def classify(case, out, kind):
         return None
     if not rs:
         return None
-    if any(r not in KNOWN_ORDER for r in rs):
-        return None
+    bad = sorted(r for r in rs if r not in KNOWN_ORDER)
+    if bad:
+        for k in FIXED_KEYS:
+            if k in bad:
+                return "regression:" + k
+        return bad[0]
     for k in KNOWN_ORDER:
         if k in rs:
             return k
@@ -1084,20 +1094,21 @@ def describe(case, out):
     return f"chart origin={case['origin']} recipe={case['recipe']}\nviolations: {sorted(rs) if rs else rs}"
 
 
-def _unknown(case):
+def _label(case):
     try:
-        rs = reasons(case, execute(case))
+        return classify(case, execute(case), "spec")
     except Exception:
-        return set()
-    return {r for r in (rs or ()) if r not in KNOWN_ORDER}
+        return None
 
 
 def shrink(case):
-    """candidates that still show a violation which is NOT a known finding (so that shrinking cannot slide from a new
-    violation into a known one); when the case has no such violation (pure correspondence failure) every candidate"""
-    keep = bool(_unknown(case))
+    """candidates that still show the SAME not-known violation class (so that shrinking cannot slide from a new violation
+    into a known finding or into another class); when the case has none (pure correspondence failure) every candidate"""
+    want = _label(case)
+    if want in KNOWN_ORDER:
+        want = None
     for c in _shrink_all(case):
-        if not keep or _unknown(c):
+        if want is None or _label(c) == want:
             yield c
 
 
